@@ -519,6 +519,19 @@ def run(ctx):
                             f"same converter, after domain-{agent_ids[i]}.pddl was regenerated with the same size")
                 fs.write_real(pth, texts[i])
                 ctx.probes["agent_file_regenerated_same_size"] += 1
+    # ---- history: the caller revises the combination it was handed, in place (adds an effect to an action); the SAME
+    # converter then combines the unchanged directory again - and must again produce the union of the agents' files
+    if cfg.chance(1, 3):
+        r = C.revise_model(ctx, W, comb, ops, kinds=("add_effect",))
+        if r:
+            try:
+                comb3 = conv.locate_domains(add_dummy_actions=dummy)
+            except Exception as e:
+                raise Violation("C17/combine-raised", "locate_domains", f"{type(e).__name__}: {e}")
+            check_union(ctx, walker.w_domain(comb3), union, W, dummy,
+                        f"same converter, after the caller edited the earlier combination in place ({r[1]})")
+            comb = comb3
+            ctx.probes["recombined_after_caller_edit"] += 1
     # ---- export the combination (fault plan), re-parse
     out = ctx.dir("out")
     plan = ["ack", "ack", "error", "crash"][f.draw(4)]
